@@ -147,14 +147,11 @@ func TestVerifC08Stack(t *testing.T) {
 		}
 		defer c.Close()
 
+		// The statement's bound, taken literally: a configured maximum of 0
+		// gives 512.
 		limit := 512
-		effMax := int(maxUDP)
-		if effMax == 0 {
-			effMax = 65535
-		}
-
 		if adv >= 0 {
-			limit = max(512, min(adv, effMax))
+			limit = max(512, min(adv, int(maxUDP)))
 		}
 
 		for round := 0; round < 2; round++ {
